@@ -245,6 +245,7 @@ func runC12Site(t *tr.Trace, r *tr.Rand, root string) {
 	fragBodies := []rawBody{{"frag-empty", nil}, {"frag-ok", []byte("a=ice-ufrag:abcd\r\na=ice-pwd:abcdefghijklmnopqrstuvwx\r\nm=audio 9 UDP/TLS/RTP/SAVPF 0\r\na=mid:0\r\na=candidate:1 1 udp 2130706431 192.0.2.1 5000 typ host\r\na=end-of-candidates\r\n")},
 		{"frag-badcand", []byte("a=ice-ufrag:abcd\r\na=ice-pwd:p\r\nm=audio 9 x 0\r\na=mid:0\r\na=candidate:garbage\r\n")},
 		{"frag-random", r.Bytes(200)}, {"frag-nomid", []byte("a=candidate:1 1 udp 1 192.0.2.1 5000 typ host\r\n")},
+		{"frag-mid-first", []byte("a=mid:0\r\na=ice-ufrag:abcd\r\na=ice-pwd:abcdefghijklmnopqrstuvwx\r\nm=audio 9 UDP/TLS/RTP/SAVPF 0\r\n")}, {"frag-mid-only", []byte("a=mid:0")},
 		{"frag-huge", bytes.Repeat([]byte("a=candidate:1 1 udp 1 192.0.2.1 5000 typ host\r\n"), 40000)}}
 	bearers := map[string]string{"none": "", "present": "Bearer tpres", "present-sub": "Bearer tadm1sub", "admin-only": "Bearer tadm1", "unknown": "Bearer nosuchtoken",
 		"expired": "Bearer texp", "other-group": "Bearer tadm2", "basic": basicHeader("alice", "S3CR3T-alice-pw"), "garbage": "Bearer \x00\xff"}
